@@ -1,6 +1,7 @@
 import Nsq.Props.C20
 import Nsq.Model.RelayRedirect
 import Nsq.Proofs.RelayRedirect
+import Nsq.Tie.ToolsRelayRedirect
 /-!
 # C20, audit round 7 item C3 — nsq_to_http and HTTP redirects
 
@@ -20,7 +21,9 @@ answered with an accepted status (2xx for POST, 200 for GET).
   redirect that makes the client drop the message (`NoLossyRedirect`: only 307/308, only for POST).
 * `redirect_answer_requeues` — fixed client: a 3xx answer (with or without `Location`) is never a success.
 Which client a tree has is regenerated from `main()` (`Nsq.Tie.ToolsRelayRedirect`) and probed on the
-real binary on every run (`harness/e8/n2h_redirect_test.go`).
+real binary on every run (`harness/e8/n2h_redirect_test.go`). F45 is committed (/repo 2a7fc8c): the tie accepts
+only the non-following client (`tree_follows : follows = false`) and `http_fin_only_after_body_accepted_this_tree`
+is the statement about the checked tree; the `…_following_*` theorems are about the client before F45.
 -/
 namespace Nsq.Props.C20Redirect
 open Nsq.Model.Relay Nsq.Model.Relay.Http Nsq.Model.RelayRedirect Nsq.Proofs.RelayRedirect
@@ -47,6 +50,24 @@ theorem http_fin_only_after_body_accepted (c : Cfg) (counter : Nat) (m : Msg) (s
   | inr h =>
     obtain ⟨hacc, hall, hone⟩ := h
     exact Or.inr ⟨fun a b ok hreq => delivered_nofollow c.post w a m.body (hacc a b ok hreq).2, hall, hone⟩
+
+/-- (the audit's world, also `wMoved` below) -/
+def wMovedT : World := fun ep _ _ => if ep = 0 then .status 302 (some 1) else .status 200 none
+
+/-- THIS tree (audit B12): the `follow` parameter is the Bool computed from the regenerated `http.Client` literal of
+`main()`, which the tie decides to be `false`; a tree that reverts F45 fails `tree_follows` and this theorem with it. -/
+theorem http_fin_only_after_body_accepted_this_tree (c : Cfg) (counter : Nat) (m : Msg) (so : Bool) (pick : Nat)
+    (w : World)
+    (hfin : Out.fin m.id ∈ (stepVia Nsq.Tie.ToolsRelayRedirect.follows c counter m so pick w).2) :
+    FinJustified Nsq.Tie.ToolsRelayRedirect.follows c m so w
+      (stepVia Nsq.Tie.ToolsRelayRedirect.follows c counter m so pick w).2 := by
+  rw [Nsq.Tie.ToolsRelayRedirect.tree_follows] at hfin ⊢
+  exact http_fin_only_after_body_accepted c counter m so pick w hfin
+
+/-- non-vacuity: this tree's client on the audit's world — one request, requeue -/
+example : (stepVia Nsq.Tie.ToolsRelayRedirect.follows ⟨.roundRobin, 1, true, false⟩ 0 ⟨7, [112]⟩ false 0 wMovedT).2 =
+    [Out.request 0 [112] false, Out.req 7] := by
+  rw [Nsq.Tie.ToolsRelayRedirect.tree_follows]; decide
 
 /-- the same statement for the client that follows redirects (tree before fix F45) -/
 def http_fin_only_after_body_accepted_following : Prop :=
